@@ -1,2 +1,21 @@
-/-! `fmparse`: the parser model behind the line protocol (stub; see Model/Parse.lean) -/
-def main : IO Unit := pure ()
+import FancyModel.Driver.ParseOps
+/-!
+# `fmparse`: the parser model (FancyModel/Model/Parse.lean) behind the line protocol
+
+One request per line on stdin, one answer per line on stdout; see Driver/ParseOps.lean for the
+format. `--sites` makes a `panic` answer name the panic site of the model.
+-/
+open Fancy.ParseOps
+
+partial def loop (sites : Bool) (h out : IO.FS.Stream) : IO Unit := do
+  let line ← h.getLine
+  if line.isEmpty then return ()
+  let line := (line.dropEndWhile (fun c => c == '\n' || c == '\r')).toString
+  out.putStrLn (handle sites line)
+  loop sites h out
+
+def main (args : List String) : IO Unit := do
+  let stdin ← IO.getStdin
+  let stdout ← IO.getStdout
+  loop (args.contains "--sites") stdin stdout
+  stdout.flush
